@@ -3,6 +3,7 @@
    are covered by the lock-step correspondence and by Proofs/Heap*.v when present). *)
 From GK Require Import PropCheck.
 From GK.Proofs Require Import BaseLemmas RepoProofs RecoverProofs.
+From GK.Proofs Require PredProofs RepoProofs2.
 
 Theorem C14_load_save_identity : forall c s target, wf_repo s -> step c target (OLoad s) = (s, ROk).
 Proof. exact load_save_identity. Qed.
@@ -38,3 +39,9 @@ Theorem C14_reachable_roundtrip : forall ops cont,
   /\ coutputs (load_fresh (csave (crun ops))) cont = coutputs (crun ops) cont.
 Proof. exact reachable_save_load. Qed.
 Print Assumptions C14_reachable_roundtrip.
+
+(* executable form of "an invalid snapshot is refused without a trace, a valid one is accepted" *)
+Theorem C14_model_satisfies_load_predicate : forall (c : cfg) (s : repo) (o : op),
+  p_load c s o (RepoProofs2.model_obs c s o) = true.
+Proof. exact PredProofs.model_obs_load_gen. Qed.
+Print Assumptions C14_model_satisfies_load_predicate.
